@@ -477,7 +477,11 @@ pub fn filler(b: &mut Builder, rng: &mut impl RngCore) {
 /// A random satisfied program with exactly `target_rows` constraints
 /// (target_rows >= 4, the composer's own prelude).
 pub fn random_program<R: RngCore>(rng: &mut R, cfg: &GenCfg, target_rows: usize) -> Builder {
-    let mut b = Builder::new();
+    random_program_from(Builder::new(), rng, cfg, target_rows)
+}
+
+/// Continue a builder (which may already hold ops) up to `target_rows`.
+pub fn random_program_from<R: RngCore>(mut b: Builder, rng: &mut R, cfg: &GenCfg, target_rows: usize) -> Builder {
     // a program that is allowed the heavy components and has the room always
     // starts with one fixed-base multiplication, so every gate family occurs
     if cfg.heavy && cfg.ecc_fixed && target_rows >= 450 {
